@@ -184,3 +184,13 @@ Proof.
   destruct k; cbn [pk_valid pk_ok]; intros H; rewrite ?andb_true_iff in *;
     intuition auto using valid_repo_ok, valid_tag_ok, valid_uuid_ok.
 Qed.
+
+Lemma cls_nonl cs u : forallb (cs_in cs) u = true -> cs_in cs NL = false -> nonl u = true.
+Proof.
+  intros H Hs. unfold nonl. rewrite forallb_forall in *. intros c Hc. specialize (H c Hc).
+  apply negb_true_iff. destruct (N.eqb c NL) eqn:E; [|reflexivity]. apply N.eqb_eq in E; subst c. congruence.
+Qed.
+Lemma valid_hex_nonl h : valid_hex h = true -> nonl h = true.
+Proof. intros H. eapply cls_nonl; [apply valid_hex_cls; exact H|reflexivity]. Qed.
+Lemma nonl_cons c t : nonl (c :: t) = negb (N.eqb c NL) && nonl t.
+Proof. reflexivity. Qed.
